@@ -20,7 +20,7 @@ ASSUMPTIONS = [
     "elements are compared through the element protocol (Z, Y, V, I), so Thevenin/Norton representation is free",
     "off-frequency sources are judged literally as the statement words it: short (voltage) / open (current)",
 ]
-N_LIST = {'quick': 2500, 'thorough': 60000}
+N_LIST = {'quick': 7500, 'thorough': 60000}
 ALL_CTORS = ['resistor', 'conductance', 'capacitor', 'inductance', 'impedance', 'admittance', 'dc_voltage_source', 'ac_voltage_source',
              'complex_voltage_source', 'periodic_voltage_source', 'dc_current_source', 'ac_current_source', 'complex_current_source',
              'periodic_current_source', 'lamp', 'resistive_load', 'short_circuit']
